@@ -33,13 +33,11 @@ func (r Targets) Len() int {
 }
 
 func (r Targets) Less(i, j int) bool {
-	if r[i].LocalAddr.String() < r[j].LocalAddr.String() ||
-		r[i].Addr.String() < r[j].Addr.String() {
-		return true
+	if li, lj := r[i].LocalAddr.String(), r[j].LocalAddr.String(); li != lj {
+		return li < lj
 	}
-	if r[j].LocalAddr.String() < r[i].LocalAddr.String() ||
-		r[j].Addr.String() < r[i].Addr.String() {
-		return false
+	if ai, aj := r[i].Addr.String(), r[j].Addr.String(); ai != aj {
+		return ai < aj
 	}
 
 	// Targets of the same address (e.g. an attribute targetable both
